@@ -19,12 +19,12 @@ func MS2NS(ms int64) int64 { return ms * 1e6 }
 
 // ChanModel gives an abstract channel its behaviour.
 type ChanModel interface {
-	Ready() bool         // may a receive proceed now?
-	Recv() (any, bool)   // value and ok (false = closed)
+	Ready() bool       // may a receive proceed now?
+	Recv() (any, bool) // value and ok (false = closed)
 }
 
 func NewChanStruct(m ChanModel) <-chan struct{} { return nil }
-func NewChanTime(m ChanModel) <-chan time.Time   { return nil }
+func NewChanTime(m ChanModel) <-chan time.Time  { return nil }
 
 // ---------- clock ----------
 
@@ -138,9 +138,9 @@ func TimeMarshalJSON(t time.Time) ([]byte, error) { return []byte(`"<time>"`), n
 // ---------- timers ----------
 
 type tickModel struct {
-	d      time.Duration
-	once   bool
-	fired  bool
+	d       time.Duration
+	once    bool
+	fired   bool
 	stopped bool
 }
 
